@@ -90,6 +90,48 @@ def stores(fn, F, local_name, cut_loops=True, through_deref=False):
             out.append((cn.c(norm(P.local(pr[0]['idx'], b, i))), cn.c(norm(P.rvalue(st['rv'], b, i, 0)))))
         elif len(pr) == 1 and isinstance(pr[0], dict) and 'cidx' in pr[0]:
             out.append((str(pr[0]['cidx']), cn.c(norm(P.rvalue(st['rv'], b, i, 0)))))
+    # local[a..a+n].copy_from_slice(src) with a source of known length n is n element stores
+    if not through_deref:
+        from .builder import be_call_type, be_byte, root_local
+        from .prov import strip, const_int
+        for b, t in fn.calls():
+            if t['fn']['k'] != 'def' or last(t['fn']['name']) != 'copy_from_slice' or len(t['args']) != 2:
+                continue
+            n_ = len(fn.blocks[b]['stmts'])
+            dst = strip(norm(P.operand(t['args'][0], b, n_)))
+            src = strip(norm(P.operand(t['args'][1], b, n_)))
+            if not (dst.k == 'call' and last(dst.name) in ('index_mut', 'index') and len(dst.args) == 2):
+                continue
+            base = strip(dst.args[0])
+            bname = base.name if base.k == 'local' else None
+            if bname is None and t['args'][0]['k'] in ('copy', 'move'):
+                rl = root_local(P, t['args'][0], b, n_)
+                bname = fn.locals[rl].get('name') if rl is not None else None
+            if bname != local_name:
+                continue
+            r = strip(dst.args[1])
+            if not (r.k == 'aggr' and r.name in ('Range::Range', 'RangeFrom::RangeFrom', 'RangeTo::RangeTo')):
+                continue
+            start = None if r.name == 'RangeTo::RangeTo' else r.args[0]
+            bt = be_call_type(src)
+            if bt and bt[0] == 'to' and src.args:
+                n = bt[2]
+                vals = [cn.c(be_byte(src.args[0], bt[1], k)) for k in range(n)]
+            else:
+                from .rules_l import array_len
+                n = array_len(src.ty or '')
+                if n is None or n > 64:
+                    continue
+                vals = ['%s[%d]' % (cn.c(src), k) for k in range(n)]
+            s0 = cn.c(start) if start is not None else '0'
+            for k in range(n):
+                if k == 0:
+                    idx = s0
+                elif s0.isdigit():
+                    idx = str(int(s0) + k)
+                else:
+                    idx = 'AddWithOverflow(%s, %d).0' % (s0, k)
+                out.append((idx, vals[k]))
     return out
 
 
